@@ -225,6 +225,10 @@ pub fn run(ctx: &Ctx) -> CheckResult {
             spaces.push(Space { cfg: Cfg::p1(k, n), alphabet: s_ops(&S_HUGE), depth: d - 2, label: "S_huge" });
             spaces.push(Space { cfg: Cfg::p1(k, n), alphabet: s_ops(&S_ULP), depth: d - 2, label: "S_ulp" });
         }
+        for k in [Kind::Rsi, Kind::FastStoch, Kind::Er] {
+            spaces.push(Space { cfg: Cfg::p1(k, n), alphabet: s_ops(&S_SUBNORMAL), depth: d - 2, label: "S_subnormal" });
+        }
+        spaces.push(Space { cfg: Cfg::p2(Kind::SlowStoch, n, 2), alphabet: s_ops(&S_SUBNORMAL), depth: d - 3, label: "S_subnormal" });
         spaces.push(Space { cfg: Cfg::p2(Kind::SlowStoch, n, 2), alphabet: s_ops(&S_HUGE), depth: d - 3, label: "S_huge" });
         spaces.push(Space { cfg: Cfg::p2(Kind::SlowStoch, n, 2), alphabet: s_ops(&S_ULP), depth: d - 2, label: "S_ulp" });
         spaces.push(Space { cfg: Cfg::p1(Kind::FastStoch, n), alphabet: with_reset(grid.clone()), depth: db, label: "B_grid+reset" });
@@ -312,7 +316,7 @@ pub fn run(ctx: &Ctx) -> CheckResult {
         res.absorb(merge_jobs(outs));
     }
     res.rule = "case = (configuration, history); the real output is required to lie in [0,100] ([0,1] for ER) with 1e-9 absolute slack (MFI: 100*tau(t)*c, applied when c<=1000) at every step whose reference denominator is non-zero; non-trivial = output at or within 1e-6 of a range boundary".into();
-    res.bounds = format!("seq(S_pos+reset,{d}), seq(S_int,{}) and seq(S_wide={{1,3,1e9,1e17,1e-9}}, same depth), seq(S_huge={{1e307,7e307,2e307,4e307}}) and seq(S_ulp = neighbours 1 and 4 ulps apart) for RSI/FAST_STOCH/ER, seq(B_grid+reset,{db}) FAST_STOCH, seq(B_vol,{dv}) and seq(B_mfi+reset,7/9) MFI, SLOW_STOCH (n x {{1,2,3}}) at reduced depth, periods 1..5; macro-step runs: all 8^3 orderings of {{up,down,tick,osc,gap,flat,outlier(1e9x),stair}} segments, scalar and bar paths, volumes spanning 1e-3..1e9", d - 1);
+    res.bounds = format!("seq(S_pos+reset,{d}), seq(S_int,{}) and seq(S_wide={{1,3,1e9,1e17,1e-9}}, same depth), seq(S_huge={{1e307,7e307,2e307,4e307}}) seq(S_ulp = neighbours 1 and 4 ulps apart) and seq(S_subnormal = {{3,4,5,8}} x 4.9e-324 and 2.2e-308) for RSI/FAST_STOCH/ER, seq(B_grid+reset,{db}) FAST_STOCH, seq(B_vol,{dv}) and seq(B_mfi+reset,7/9) MFI, SLOW_STOCH (n x {{1,2,3}}) at reduced depth, periods 1..5; macro-step runs: all 8^3 orderings of {{up,down,tick,osc,gap,flat,outlier(1e9x),stair}} segments, scalar and bar paths, volumes spanning 1e-3..1e9", d - 1);
     res.assumptions = vec!["RSI denominators below 1e-280 (fully decayed averages) count as zero: such windows are C08's subject".into()];
     res
 }
